@@ -4,8 +4,10 @@
   Container (pattern P1, mirror `FalconModel/Graph.lean` of lib/graph/mod.rs):
     edits_consistent, edit_refines, edits_refine, consistent_edges_in
   Algorithms (pattern P2, definitional models `FalconModel/GraphAlg.lean`, all built on `reach`):
-    reach_spec, reach_spec_general, dominates_spec, doms_spec, idom_spec, idom_unique, domTree_spec,
-    frontier_spec, backEdges_spec, loopNodes_spec, loops_spec, loopTree_spec, acyclic_spec,
+    reach_spec, reach_spec_general, dominates_spec, doms_spec, idom_spec, idom_unique, idom_exists,
+    idom_root, domTree_spec,
+    frontier_spec, backEdges_spec, loopNodes_spec, loops_spec, loopTree_spec, loop_header_dominates,
+    nesting_inclusion, acyclic_spec,
     reducible_spec, tpreds_spec, hasCycle_spec, analyse_sound
   Order-valued functions (pattern P3, verified checkers):
     isTopo_sound, topo_implies_acyclic, cycle_excludes_topo, isPreorder_sound, isPostorder_sound,
@@ -13,14 +15,12 @@
   All statements quantify over every finite graph `(V, E)` (any vertex ids, self-loops, irreducible
   regions, unreachable parts), every root and every finite edit history; nothing is bounded.
 
-  Not proved (stated here so that it is not lost): `idom_exists` — every reachable vertex other than the
-  root HAS an immediate dominator (the textbook chain lemma).  `idom_spec`/`idom_unique` say that the
-  model answers `some d` exactly when `d` is the (unique) immediate dominator, so the model is the
-  textbook partial function in any case; existence is observed on every generated graph by the
-  correspondence check (falcon's Semi-NCA answer is compared with the model's).
+  (`idom_exists`: every reachable vertex other than the root has an immediate dominator.)
 -/
 import FalconProofs.C11.Edits
 import FalconProofs.C11.Orders
+import FalconProofs.C11.IdomExists
+import FalconProofs.C11.Nesting
 
 namespace Falcon.C11
 open Falcon.Reach Falcon.G Falcon.GA
@@ -100,6 +100,22 @@ theorem idom_spec (V : List Nat) (E : EL) (r v d : Nat) : idom V E r v = some d 
 theorem idom_unique (E : EL) (r d d' v : Nat) (h : IsIdom E r d v) (h' : IsIdom E r d' v) : d = d' :=
   GA.idom_unique h h'
 
+/-- **idom_exists**: every vertex reachable from the root, other than the root, has an immediate
+    dominator, and the model finds it (the dominators of a vertex form a chain) -/
+theorem idom_exists (V : List Nat) (E : EL) (r v : Nat) (hv : Path (succE E) r v) (hne : v ≠ r) :
+    ∃ d, idom V E r v = some d ∧ IsIdom E r d v :=
+  let ⟨d, hd⟩ := GA.idom_exists V E r v hv hne
+  ⟨d, (GA.idom_spec V E r v d).mpr hd, hd⟩
+
+/-- the root has no immediate dominator -/
+theorem idom_root (V : List Nat) (E : EL) (r : Nat) : idom V E r r = none := by
+  cases h : idom V E r r with
+  | none => rfl
+  | some d =>
+    have hd := ((GA.idom_spec V E r r d).mp h).1
+    have := hd.2.2 [r] (Walk.single r)
+    exact absurd (List.mem_singleton.mp this) hd.1
+
 theorem domTree_spec (V : List Nat) (E : EL) (r d v : Nat) : (d, v) ∈ domTree V E r ↔ IsIdom E r d v :=
   GA.domTree_spec V E r d v
 
@@ -130,6 +146,16 @@ theorem loopTree_spec (V : List Nat) (E : EL) (r h₁ h₂ : Nat) :
     (h₁, h₂) ∈ loopTree V E r ↔
       (∃ t, BackEdge E r t h₁) ∧ (∃ t, BackEdge E r t h₂) ∧ h₁ ≠ h₂ ∧ InLoop E r h₁ h₂ :=
   GA.loopTree_spec V E r h₁ h₂
+
+/-- every vertex of a natural loop is dominated by its header -/
+theorem loop_header_dominates (E : EL) (r h v : Nat) (hb : ∃ t, BackEdge E r t h) (hv : InLoop E r h v) :
+    Dom E r h v := GA.inLoop_dom hb hv
+
+/-- **nesting_inclusion**: falcon's nesting test (different headers, inner header inside the outer loop)
+    is the textbook one (the inner loop's node set is contained in the outer loop's) -/
+theorem nesting_inclusion (E : EL) (r h₁ h₂ : Nat) (hb₁ : ∃ t, BackEdge E r t h₁) (hb₂ : ∃ t, BackEdge E r t h₂)
+    (hne : h₁ ≠ h₂) : InLoop E r h₁ h₂ ↔ ∀ v, InLoop E r h₂ v → InLoop E r h₁ v :=
+  GA.nesting_inclusion hb₁ hb₂ hne
 
 theorem acyclic_spec (V : List Nat) (E : EL) (r : Nat) :
     acyclic V E r = true ↔ ¬ ∃ v, Path (succE E) r v ∧ PathPlus (succE E) v v :=
